@@ -1,10 +1,12 @@
 /* utf8_decode.h */
 
+#include <stddef.h>
+
 #define UTF8_END   -1
 #define UTF8_ERROR -2
 
-extern int  utf8_decode_at_byte();
-extern int  utf8_decode_at_character();
-extern void utf8_decode_init(const char p[], int length);
+extern size_t utf8_decode_at_byte();
+extern size_t utf8_decode_at_character();
+extern void utf8_decode_init(const char p[], size_t length);
 extern int  utf8_decode_next();
 
